@@ -267,6 +267,44 @@ func genRecv(r *hv.Rand) {
 		runRecv("recv-window-edge", st, sc, true)
 	}
 
+	// (3b) a full window of out-of-order fragments behind a missing head-of-line frame: 1000 distinct frames
+	// (windowStart+1 .. windowStart+1000, the window bound is inclusive), or fewer frames each delivered twice
+	// or three times (1000-1100 heap entries); then the head is retransmitted and everything must become readable
+	for k := 0; k < hv.Scale(4, 12); k++ {
+		var first uint64 = 1
+		if k%4 == 3 {
+			first = 1<<32 - 500 // the same across the 32-bit wrap
+		}
+		st := &stream{first: first, n: 1001 + uint64(r.Intn(30)), salt: r.U64() % 1000, oracle: true, complete: true}
+		var sc []rop
+		lead := uint64(r.Intn(3)) // a few frames consumed in order first
+		for i := uint64(0); i < lead; i++ {
+			sc = append(sc, st.frame(first+i))
+		}
+		head := first + lead
+		switch k % 4 {
+		case 0, 3: // 1000 distinct frames behind the head
+			for i := uint64(1); i <= 1000; i++ {
+				sc = append(sc, st.frame(head+i))
+			}
+		case 1: // 500+ frames, each delivered twice
+			m := uint64(500 + r.Intn(50))
+			for i := uint64(1); i <= m; i++ {
+				sc = append(sc, st.frame(head+i), st.frame(head+i))
+			}
+		case 2: // descending order, every third frame three times
+			for i := uint64(700); i >= 1; i-- {
+				sc = append(sc, st.frame(head+i))
+				if i%3 == 0 {
+					sc = append(sc, st.frame(head+i), st.frame(head+i))
+				}
+			}
+		}
+		sc = append(sc, rop{kind: 'D', n: 16})
+		sc = append(sc, st.frame(head), rop{kind: 'D', n: 1 << 16}) // the retransmitted head-of-line frame
+		runRecv("recv-full-window-behind-missing-head", st, sc, true)
+	}
+
 	// (4) frame numbers around the 2^32 wrap and the 2^31 decision boundary of unwrapFrameNo
 	starts := []uint64{1<<32 - 3, 1<<32 - 1, 1 << 32, 1<<32 + 1, 1<<31 - 2, 1 << 31, 1<<31 + 1<<32 - 2, 3<<32 - 2, 1<<33 + 1<<31 - 1, 1<<40 - 5, 1<<63 - 7}
 	for k := 0; k < hv.Scale(120, 600); k++ {
